@@ -278,3 +278,22 @@ Proof.
   assert (Hyo: orph y = false) by (apply (reach_nonorph s t y Hwf Hy); intros x' E'; congruence).
   destruct (nonorphan_parent s Hwf y (reach_in _ _ _ Hy) Hyo) as [(Hn & _)|(q & Eq & Hh & _)]; congruence.
 Qed.
+
+(* ================================================================== single-row reads *)
+Theorem lookup_spec s t : Valid s ->
+  (forall r, get_by_hash s t = Some r <-> In r s /\ id r = t) /\ (get_by_hash s t = None <-> ~ In t (ids s)).
+Proof.
+  intros HV. pose proof (wf_nodup s (valid_wf s HV)) as Hnd. unfold get_by_hash. split.
+  - intros r. split; [apply by_hash_in|]. intros [Hr <-]. apply by_hash_self; assumption.
+  - split; [apply by_hash_none|]. intros Hn. destruct (by_hash s t) as [x|] eqn:E; [|reflexivity].
+    exfalso. apply Hn. destruct (by_hash_in _ _ _ E) as [Hx <-]. apply in_map. exact Hx.
+Qed.
+
+Theorem tip_longest_spec s : Valid s ->
+  exists t, tip_longest s = Some t /\ In t s /\ st t = Longest /\ best s = Some t /\
+            (forall r, In r s -> st r = Longest -> r = t \/ height r < height t).
+Proof.
+  intros HV. destruct (valid_tip s HV) as (t & Ht & HL & _ & Hin & Hb). destruct HV as (tip & HI & _).
+  exists t. unfold tip_longest. repeat split; try assumption.
+  intros r Hr HrL. rewrite (tipB_is_tip s tip HI) in Ht. apply (tip_height_max s tip t HI Ht r Hr HrL).
+Qed.
